@@ -90,11 +90,46 @@ def adjoint_of(op: Tuple[str, str]) -> Tuple[str, str]:
     return ("fn", t + "^*")
 
 
+_CTX = {}      # (repo, class) of the function whose stacked operator is being looked for (set by the rule entry points)
+
+
 def _find_M(fn) -> ast.FunctionDef:
     ms = [n for n in ast.walk(fn) if isinstance(n, ast.FunctionDef) and n.name == "M"]
-    if len(ms) != 1:
-        raise AnchorError(f"{fn.name}: closure M(x, flag) not found")
-    return ms[0]
+    if len(ms) == 1:
+        return ms[0]
+    # the operator as a bound private method: `self.M = self._apply_M` / `CGLS(self._M, ...)`, with the quantities the closure used to capture kept in
+    # attributes set by the same function (`self._M_prior_sqrtprec = L2`).  It is turned back into the closure it stands for: helpers inlined, `self`
+    # parameter dropped, those attributes replaced by the locals they were set from.
+    repo, ci = _CTX.get("repo"), _CTX.get("ci")
+    if not ms and repo is not None and ci is not None:
+        cand = []
+        for n in ast.walk(fn):
+            if isinstance(n, ast.Assign) and path_of(n.targets[0]) == "self.M" and (path_of(n.value) or "").startswith("self._"):
+                cand.append(path_of(n.value)[5:])
+            if isinstance(n, ast.Call) and (call_name(n) or "").endswith("CGLS") and n.args and (path_of(n.args[0]) or "").startswith("self._"):
+                cand.append(path_of(n.args[0])[5:])
+        cand = [c for c in dict.fromkeys(cand) if ci.lookup(c) is not None]
+        if len(cand) == 1:
+            from .common import canon_keep
+            from ..canon import set_parents, clone
+            mv = clone(canon_keep(repo, ci, ci.lookup(cand[0])[1], set()))
+            amap = {}
+            for n in ast.walk(fn):
+                if isinstance(n, ast.Assign) and len(n.targets) == 1 and (path_of(n.targets[0]) or "").startswith("self._") and isinstance(n.value, ast.Name):
+                    amap[path_of(n.targets[0])] = n.value.id
+
+            class T(ast.NodeTransformer):
+                def visit_Attribute(self, a):
+                    p_ = path_of(a)
+                    if p_ in amap and isinstance(a.ctx, ast.Load):
+                        return ast.copy_location(ast.Name(amap[p_], ast.Load()), a)
+                    return self.generic_visit(a)
+            mv = T().visit(mv)
+            mv.name = "M"
+            mv.args.args = mv.args.args[1:]
+            mv.decorator_list = []
+            return set_parents(ast.fix_missing_locations(mv))
+    raise AnchorError(f"{fn.name}: closure M(x, flag) not found")
 
 
 def _branches(M) -> Tuple[List[ast.stmt], List[ast.stmt]]:
@@ -151,11 +186,15 @@ def _r2_five_tuple(chk, repo):
     from ..canon import clone as _clone
     ci = repo.cls("cuqi/sampler/_rto.py:LinearRTO")
     init = repo.method(ci, "__init__")[1]
-    v = canon_fn(repo, ci, init, 1)
     t = func_params(init)[1]
     val = {pn(f"isinstance({t},tuple)"): True, pn(f"len({t})==5"): True}
-    stops = [r for k_, r in walk_paths(v, val, pn, limit=64, stop_pred=lambda a_: isinstance(a_, ast.Assign) and isinstance(a_.value, ast.Call)
-                                       and (call_name(a_.value) or "").endswith("Posterior")) if k_ == "stop"]
+    stops = []
+    for level in (1, 2):            # as written; with a private helper that builds the posterior from the tuple inlined
+        v = canon_fn(repo, ci, init, level)
+        stops = [r for k_, r in walk_paths(v, val, pn, limit=64, stop_pred=lambda a_: isinstance(a_, ast.Assign) and isinstance(a_.value, ast.Call)
+                                           and (call_name(a_.value) or "").endswith("Posterior")) if k_ == "stop"]
+        if stops:
+            break
     problems = []
     if not stops:
         chk.unknown("C06-R2", f"{ci.qual}.__init__/5-tuple", site(repo, init), "construction of the posterior from the 5-tuple not found", init)
@@ -213,12 +252,20 @@ def _canon_lk(e: ast.expr, names: Dict[str, str]) -> ast.expr:
 
 
 def _rto(chk, repo, ci, fn_src):
+    from .common import best_of
+    # temporaries substituted (level 4), or kept (level 1: when the operator is a bound method the whitening factors are ordinary locals that the
+    # substitution would dissolve; as captured variables of a closure they are kept anyway)
+    best_of(chk, (4, 1), lambda t, lvl: _rto_on(t, repo, ci, fn_src, lvl))
+
+
+def _rto_on(chk, repo, ci, fn_src, level):
     """Decided on the structural normal form of the function that builds M (temporaries substituted, comprehension variables canonical);
     the locals holding the likelihoods' sqrtprec list, the prior sqrtprec and sqrtprec@mean are found by what they are bound to."""
     from .common import canon_fn
     from ..pattern import statements, unify, find, norm as pn
     inst = f"{ci.qual}.{fn_src.name}/M"
-    fn = canon_fn(repo, ci, fn_src, 4)
+    fn = canon_fn(repo, ci, fn_src, level)
+    _CTX.update(repo=repo, ci=ci)
     M = _find_M(fn)
     b1, b2 = _branches(M)
     problems = []
@@ -379,6 +426,7 @@ def _rto(chk, repo, ci, fn_src):
 
 def _ugla(chk, repo, ci, fn):
     inst = f"{ci.qual}.{fn.name}/M"
+    _CTX.update(repo=repo, ci=ci)
     M = _find_M(fn)
     b1, b2 = _branches(M)
     from ..pattern import statements, unify
@@ -414,6 +462,14 @@ def _ugla(chk, repo, ci, fn):
     fn_src = fn
     valued = {d.name for d in ast.walk(fn_src) if isinstance(d, ast.FunctionDef) and d is not fn_src
               and any(isinstance(r, ast.Return) and r.value is not None for r in ast.walk(d))}
+    # ... also when those closures have become private methods: methods of the class that return a value and are called with the state
+    # (the Laplace factor at a point) or handed to the solver (the operator)
+    for c_ in ast.walk(fn_src):
+        if isinstance(c_, ast.Call) and (call_name(c_) or "").startswith("self._") and (call_name(c_) or "").count(".") == 1:
+            r_ = ci.lookup(call_name(c_)[5:])
+            if r_ is not None and any(isinstance(x_, ast.Return) and x_.value is not None for x_ in ast.walk(r_[1])) \
+                    and isinstance(getattr(c_, "_parent", None), ast.Assign) and (path_of(c_._parent.targets[0]) or "").startswith("self._L"):
+                valued.add(call_name(c_)[5:])
     fn = canon_keep(repo, ci, fn_src, keep=valued)
     for s in ast.walk(fn):
         if isinstance(s, ast.Assign) and path_of(s.targets[0]) in ("self._L2mu", "self._b_tild", "self._L1"):
